@@ -982,6 +982,112 @@ def poly_rules(prog, chk, pid):
         chk.require(ok, "%s.poly-identities" % pid, PJ + "." + fname, "X3/Z3^2, Y3/Z3^3 == chord/tangent formulas", "%s:%d" % (fi.file, fi.lineno), "the Jacobian formula equals the affine group law as an identity of rational functions (reductions modulo p dropped)", "the formula is not the group law (polynomial identity fails)")
 
 
+def affine_point_rules(prog, chk, pid):
+    """the affine Point class: (1) the generic addition / doubling formulas, evaluated on every pair of points of a small curve with the checker's own field arithmetic;
+    (2) the special cases are recognised by comparing with INFINITY / comparing coordinates with each other, never by the truth value of a coordinate (x = 0 and y = 0 are
+    ordinary coordinate values: (0, sqrt(b)) is a point of every curve whose b is a square)"""
+    from bfsa.evalterm import NoEval, eval_term
+
+    P = lambda s_: "%s.%s" % (pid, s_)
+    PT = E + "ellipticcurve.Point"
+    cls = prog.cls(PT)
+    # ---- (2) no truth tests on coordinates
+    for mname in ("__add__", "__mul__", "double", "__str__", "__eq__", "__neg__"):
+        fi = cls.methods.get(mname)
+        if fi is None:
+            raise AnalysisError("Point.%s missing" % mname)
+        ex = Exec(prog, policy=lambda e, f, d: False)
+        res = ex.run(fi)
+
+        def is_coord(t):
+            t = unsnap(t)
+            if t.op == "attr" and str(t.args[1]).endswith(("__x", "__y")):
+                return True
+            mc_ = meth_call(t)
+            return bool(mc_) and mc_[1] in ("x", "y") and not mc_[2]
+
+        bad = None
+        n_at = 0
+        for e in res.events:
+            if e.kind not in ("branch", "guard", "guard2"):
+                continue
+            for a in atoms(rel(e.d["cond"], True)):
+                n_at += 1
+                if a[1] in ("Truthy", "Falsy") and is_coord(a[2]):
+                    bad = bad or (e.where, "the truth value of %s" % show(a[2], 3))
+                if a[1] in ("Eq", "NotEq") and a[3] is not None:
+                    for x, y in ((a[2], a[3]), (a[3], a[2])):
+                        if is_coord(x) and is_const(unsnap(y)) and cval(unsnap(y)) in (0, None, False):
+                            bad = bad or (e.where, "%s compared with %r" % (show(x, 3), cval(unsnap(y))))
+        chk.require(bad is None, P("affine-special-cases"), fi.qualname, "%d branch conditions" % n_at, bad[0] if bad else "%s:%d" % (fi.file, fi.lineno),
+                    "no case distinction of the affine arithmetic depends on a coordinate being zero / falsy: infinity is recognised by comparison with INFINITY",
+                    "a case distinction tests %s: a point with that coordinate equal to 0 is treated as a special case (e.g. as infinity)" % (bad[1] if bad else ""))
+    # ---- (1) formulas on the curve y^2 = x^3 + x + 4 over F_103 (prime order 103... any small curve will do: every finite pair of points is tried)
+    p_, a_, b_ = 103, 1, 4
+    pts = [(x, y) for x in range(p_) for y in range(p_) if (y * y - (x * x * x + a_ * x + b_)) % p_ == 0]
+
+    def ref_add(P1, P2):
+        (x1, y1), (x2, y2) = P1, P2
+        if x1 == x2:
+            if (y1 + y2) % p_ == 0:
+                return None
+            lam = (3 * x1 * x1 + a_) * pow(2 * y1, -1, p_) % p_
+        else:
+            lam = (y2 - y1) * pow(x2 - x1, -1, p_) % p_
+        x3 = (lam * lam - x1 - x2) % p_
+        return x3, (lam * (x1 - x3) - y1) % p_
+
+    def formula(mname, two):
+        fi = cls.methods[mname]
+        ex = Exec(prog, policy=lambda e, f, d: False)
+        res = ex.run(fi)
+        news = [e for e in res.events if e.kind == "new" and e.d["cls"].name == "Point" and len(e.d["args"]) >= 3]
+        if len(news) != 1:
+            return fi, None, "expected one generic result Point(curve, x3, y3), found %d" % len(news)
+        x3t, y3t = news[0].d["args"][1], news[0].d["args"][2]
+
+        def leaf_for(P1, P2):
+            def leaf(t, rec):
+                sh = show(t, 6)
+                if t.op == "attr":
+                    nm = str(t.args[1])
+                    base = show(t.args[0], 3)
+                    if nm.endswith("__x"):
+                        return P1[0] if base == "self" else P2[0] if base == "other" else None
+                    if nm.endswith("__y"):
+                        return P1[1] if base == "self" else P2[1] if base == "other" else None
+                mc_ = meth_call(t)
+                if mc_ and not mc_[2] and "curve" in show(mc_[0], 4):
+                    return {"p": p_, "a": a_, "b": b_}.get(mc_[1])
+                if t.op == "call" and "inverse_mod" in show(t.args[0], 3) and len(t.args[1]) == 2:
+                    d_, m_ = rec(t.args[1][0]), rec(t.args[1][1])
+                    if d_ % m_ == 0:
+                        raise NoEval("inverse of 0")
+                    return pow(d_, -1, m_)
+                return None
+            return leaf
+
+        for P1 in pts:
+            for P2 in (pts if two else [P1]):
+                if two and P1[0] == P2[0]:
+                    continue  # handled by the special cases (inverse points / doubling)
+                if not two and P1[1] == 0:
+                    continue
+                want = ref_add(P1, P2)
+                try:
+                    got = (eval_term(x3t, {}, leaf_for(P1, P2)) % p_, eval_term(y3t, {}, leaf_for(P1, P2)) % p_)
+                except NoEval as e_:
+                    raise AnalysisError("Point.%s: result coordinates are not field arithmetic over the operands' coordinates (%s)" % (mname, e_))
+                if got != want:
+                    return fi, False, "%s%s gives %s, the group law gives %s (curve y^2 = x^3 + x + 4 over F_103)" % (P1, (" + %s" % (P2,)) if two else " doubled", got, want)
+        return fi, True, ""
+
+    for mname, two in (("__add__", True), ("double", False)):
+        fi, okf, whyf = formula(mname, two)
+        chk.require(bool(okf), P("affine-formula"), fi.qualname, "chord / tangent formula evaluated on all %s of a 103-element curve" % ("pairs of points with different x" if two else "points"), "%s:%d" % (fi.file, fi.lineno),
+                    "the generic result equals the group law for every pair of finite points (checker's own arithmetic on the extracted expressions)", whyf)
+
+
 def run(prog, chk, tier):
     chk.explanation = ("Curve literals are folded sequentially from ecdsa.py and audited with the checker's own arithmetic (primality, on-curve, n*G = infinity, Hasse). The Jacobian "
                        "formula functions are interpreted symbolically; an interval analysis in units of p (X, Z in [0,1), Y in (-1,1) because Y may be stored negated; % p gives "
@@ -992,6 +1098,7 @@ def run(prog, chk, tier):
     const_rules(prog, chk, "C17", tier)
     canon_rules(prog, chk, "C17")
     sibling_rules(prog, chk, "C17")
+    affine_point_rules(prog, chk, "C17")
     ecdh_rules(prog, chk, "C17")
     equality_rules(prog, chk, "C17")
     mul_rules(prog, chk, "C17")
